@@ -579,6 +579,21 @@ class Program:
                 m = self.repo.find_method(rc, f.attr)
                 if m is not None:
                     return [m]
+                # an instance attribute that holds a memoised function of the package, bound once in __init__:
+                #   self._get = lru_cache(maxsize=None)(_load)   /   self._get = cache(_load)   ->   a call of _load
+                init_ = self.repo.find_method(rc, "__init__")
+                if init_ is not None and not isinstance(init_.node, ast.Lambda) and init_.params:
+                    binds = [st for st in walk_no_nested(init_.node) if isinstance(st, (ast.Assign, ast.AnnAssign)) and st.value is not None
+                             for t in (st.targets if isinstance(st, ast.Assign) else [st.target])
+                             if isinstance(t, ast.Attribute) and t.attr == f.attr and isinstance(t.value, ast.Name) and t.value.id == init_.params[0]]
+                    if len(binds) == 1 and isinstance(binds[0].value, ast.Call) and len(binds[0].value.args) == 1 and not binds[0].value.keywords:
+                        w_ = binds[0].value
+                        inner = w_.func.func if isinstance(w_.func, ast.Call) else w_.func
+                        nm_ = inner.id if isinstance(inner, ast.Name) else (inner.attr if isinstance(inner, ast.Attribute) else "")
+                        if nm_ in ("cache", "lru_cache") and isinstance(w_.args[0], (ast.Name, ast.Attribute)):
+                            tgt = self.repo.resolve_expr(w_.args[0], init_.module, init_)
+                            if isinstance(tgt, FuncInfo):
+                                return [tgt]
                 exts = self.repo.external_bases(rc)
                 return f"{'|'.join(exts) or rc.qual}.{f.attr}"
             r = self.repo.resolve_expr(f, fi.module, fi)
